@@ -153,4 +153,17 @@ theorem floorAt_iff_split (grant : Nat → Option Int) (before rest : List Entry
       have := h (e :: pre) f post (by rw [heq]; rfl)
       simpa [List.append_assoc] using this
 
+/-- index reading of `floorAt` -/
+theorem floorAt_getElem (grant : Nat → Option Int) (before rest : List Entry) (h : floorAt grant before rest)
+    (i : Nat) (e : Entry) (he : rest[i]? = some e) :
+    floorOk (grant e.by_) (fun x asset => balanceOf (before ++ rest.take i) x asset) e.log.postings = true := by
+  obtain ⟨hlt, hget⟩ := List.getElem?_eq_some_iff.mp he
+  apply (floorAt_iff_split grant before rest).mp h (rest.take i) e (rest.drop (i + 1))
+  rw [← hget, ← List.drop_eq_getElem_cons hlt, List.take_append_drop]
+
+/-- one debit of `m` from `x` (to another account) lowers the balance of `x` by `m` -/
+theorem applyP_single_debit (x d : Acct) (asset : String) (m acc : Int) (hd : d ≠ x) :
+    applyP x asset acc [⟨x, d, m, asset⟩] = acc - m := by
+  simp only [applyP, List.foldl_cons, List.foldl_nil, applyOne, if_true, hd, if_false]
+
 end Engine.Floor
